@@ -11,8 +11,9 @@ from . import values as V
 from . import toolchain as T
 from . import sse
 
-BYTE_ALPHABET = [0x00, 0x09, 0x0a, 0x0d, 0x1f, 0x20, 0x41, 0x5c, 0x7e, 0x7f, 0xff]
-BYTE_STRINGS = [b'', b'A', b'\x00\t\n\r\x1f', b' A\\~\x7f\xff', bytes(bytearray(BYTE_ALPHABET)), b'plain text']
+BYTE_ALPHABET = [0x00, 0x09, 0x0a, 0x0d, 0x1f, 0x20, 0x25, 0x41, 0x5c, 0x7b, 0x7d, 0x7e, 0x7f, 0xff]
+BYTE_STRINGS = [b'', b'A', b'\x00\t\n\r\x1f', b' A\\~\x7f\xff', bytes(bytearray(BYTE_ALPHABET)), b'plain text',
+                b'100%', b'%s %d %%', b'{0} {x}']   # format directives of either language must come out verbatim
 INTS = [10, 30, 255, 171]
 
 
@@ -162,7 +163,7 @@ def run_text(ctx):
                 ctx.violations[key].append(a)
     ctx.cov['rule'] = ('text universe: every permutation of up to %d members drawn from bytes (dynamic, fixed), integers, enum, '
                        'nested struct, array, optional, union, limited composite array; values use integers whose decimal '
-                       'and hex spellings differ and bytes over {00,09,0a,0d,1f,20,41,5c,7e,7f,ff}; str() of the real '
+                       'and hex spellings differ and bytes over {00,09,0a,0d,1f,20,25,41,5c,7b,7d,7e,7f,ff} incl. format directives; str() of the real '
                        'message and print() of the compiled C++ message are compared with the reference renderer. '
                        'non-trivial = rendering contains an escaped byte.' % (3 if ctx.tier == 'quick' else 4))
 
